@@ -82,7 +82,9 @@ where
 	// also names the destination account
 	let tx = updater::retrieve_txs(&mut *w, None, Some(ret_slate.id), None, None, use_test_rng)?;
 	for t in &tx {
-		if t.tx_type == TxLogEntryType::TxReceived {
+		// (TxReverted: received, confirmed and reorganised away; it is confirmed again when
+		// the transaction is mined again)
+		if t.tx_type == TxLogEntryType::TxReceived || t.tx_type == TxLogEntryType::TxReverted {
 			return Err(Error::TransactionAlreadyReceived(ret_slate.id.to_string()));
 		}
 		// a payment that was cancelled here stays cancelled, it is not received again
